@@ -1,6 +1,8 @@
 (* Properties/C02.v — The loader is total.
    Model: Xml/Lexer.v, Xml/Parser.v.  Proofs: Xml/LexerProofs.v, Xml/ParserProofs.v. *)
-From AV Require Import Base.Bytes Base.Outcome Hash.HashModel Spec.SpecOps Xml.Lexer Xml.Parser Xml.LexerProofs Xml.TablesOk Xml.ParserProofs Xml.ParserCheck Xml.ParserDepth.
+From AV Require Import Base.Bytes Base.Outcome Hash.HashModel Spec.SpecOps Xml.Lexer Xml.Parser Xml.LexerProofs Xml.TablesOk Xml.ParserProofs Xml.ParserCheck Xml.ParserDepth Xml.ParserExamples.
+From AV Require Import Spec.SpecReal Hash.HashRealElement Hash.HashRealAttr Hash.HashRealEnum.
+Open Scope list_scope.
 
 (* [U] the attribute scan of the xml header never panics (fix d17bf18) *)
 Theorem C02_header_attrs_total :
@@ -92,10 +94,10 @@ Theorem C02_depth :
   parse_element strict T tab_el tab_at tab_en check_fn float_parse fuel lfuel name ty attrs comment path pos st
     = Val (Ret t st') ->
   forall fuel' : nat,
-    (depth t <= fuel' ->
+    ((depth t <= fuel')%nat ->
      parse_element strict T tab_el tab_at tab_en check_fn float_parse fuel' lfuel name ty attrs comment path pos st
        = Val (Ret t st')) /\
-    (fuel' < depth t ->
+    ((fuel' < depth t)%nat ->
      parse_element strict T tab_el tab_at tab_en check_fn float_parse fuel' lfuel name ty attrs comment path pos st
        = Fuel).
 Proof. exact parse_element_depth. Qed.
@@ -104,5 +106,11 @@ Proof. exact parse_element_depth. Qed.
 Theorem C02_depth_load :
   forall (strict : bool) (T : tables) (tab_el tab_at tab_en : nametab) (check_fn : N -> list N -> res bool)
          (float_parse : list N -> option N) (bs : list N) (t : etree) (st : pstate),
-  load strict T tab_el tab_at tab_en check_fn float_parse bs = Val (Ret t st) -> depth t <= S (List.length bs).
+  load strict T tab_el tab_at tab_en check_fn float_parse bs = Val (Ret t st) -> (depth t <= S (List.length bs))%nat.
 Proof. exact load_depth. Qed.
+
+(* [F] the boolean hypotheses hold for the regenerated tables (Spec/SpecReal.v over Gen/SpecTables.v, the three
+   regenerated name tables); evaluated by vm_compute on every run.  accept_all stands for any validator family that
+   returns a value (for the real validators that is C19_n part 3). *)
+Theorem C02_real_tables_ok : loader_hyps RT tab_element tab_attr tab_enum accept_all.
+Proof. exact real_loader_hyps. Qed.
